@@ -4,6 +4,7 @@ import (
 	"fmt"
 	stdhtml "html"
 	"html/template"
+	"strings"
 
 	"go.pennock.tech/tabular"
 	"go.pennock.tech/tabular/html"
@@ -147,6 +148,15 @@ func c06Check(c *Ctx, cs *c06Case, sample bool) {
 		}
 		c.Rec.Count("renders_refused", 1)
 		return
+	}
+	for _, txts := range append(textsOf(spec), spec.HeaderTexts(), []string{string(cs.ID), string(cs.Class), string(cs.Caption), string(cs.GenBase)}) {
+		for _, x := range txts {
+			if strings.IndexByte(x, 0) >= 0 {
+				// U+0000 is outside the property's alphabet (HTML cannot carry it): no-panic only
+				c.Rec.Count("tables_with_NUL_text(no-panic only)", 1)
+				return
+			}
+		}
 	}
 	c.Rec.Count("outputs_tokenized", 1)
 	if sample && nontrivial && c.Rec.WantSample() {
